@@ -19,7 +19,9 @@ type exponentialBackoff struct {
 
 func (e *exponentialBackoff) Duration(attempt int) time.Duration {
 	dur := float64(e.min) * math.Pow(2, float64(attempt))
-	if dur > float64(e.max) {
+	if dur >= float64(e.max) {
+		// float64(e.max) may round up (to 2^63 for math.MaxInt64): a [dur] equal to it
+		// is above [e.max] and must not be converted (int64 overflow).
 		return e.max
 	}
 	return time.Duration(dur)
